@@ -337,7 +337,7 @@ impl Property for C02 {
         Isolation::Child
     }
     fn cases(&self, tier: Tier) -> u32 {
-        tier.pick(3_000, 120_000)
+        tier.pick(20_000, 300_000)
     }
     fn strategy(&self, tier: Tier) -> BoxedStrategy<Case> {
         let t = 0u8..NT as u8;
